@@ -732,8 +732,8 @@ package goatlang
 
 //@ func (*VM).exec case codeIncDec
 //@   property C07 C04 C02
-//@   reveal Int
-//@   requires need(v, 1) && valid(top(v, 0))
+//@   reveal newUntypedInt
+//@   requires need(v, 1) && valid(top(v, 0)) && small(int64(int(ins(v).A)))
 //@   ensures#delta len(v.stack) == old(len(v.stack))
 //@   ensures#frame keeps(v, len(v.stack) - 1)
 //@   ensures#value top(v, 0) == old(top(v, 0)).opAdd(newUntypedInt(int(old(ins(v)).A)))
@@ -741,8 +741,8 @@ package goatlang
 //@
 //@ func (*VM).exec case codeLocalIncDec
 //@   property C07 C04 C02
-//@   reveal Int
-//@   requires localOK(v, ins(v).A) && valid(local(v, ins(v).A))
+//@   reveal newUntypedInt
+//@   requires localOK(v, ins(v).A) && valid(local(v, ins(v).A)) && small(int64(int(ins(v).B)))
 //@   ensures#delta len(v.stack) == old(len(v.stack))
 //@   ensures#frame keepsExcept(v, len(v.stack), baseN + int(old(ins(v)).A))
 //@   ensures#value local(v, old(ins(v)).A) == old(local(v, ins(v).A)).opAdd(newUntypedInt(int(old(ins(v)).B)))
